@@ -27,6 +27,7 @@ ATOMS = {   # source text → (Lean term, type)
     "bias": ("bias", "OQ"), "user_id": ("uidPresent", "PRES"),
     "self.users.number(user_id, missing='none')": ("uno", "ON"),
     "entity_damping(self.damping, 'user')": ("dampU", "Q"),
+    "np.log(rng.uniform(0, 1, N))": ("logu", "A"), "np.finfo('f4').smallest_normal": ("eps", "Q"),
 }
 PARAMS = ("(g : Q) (ib : Option (List Q)) (usersPresent : Bool) (ub : List Q) (dampU : Q) (inums : List Int) (bias : Option Q) "
           "(histPresent : Bool) (hratings : Option (List Q)) (hnums : List Int) (uidPresent : Bool) (uno : Option Nat)")
@@ -48,6 +49,12 @@ class T:
             if f == "np.full" and len(e.args) == 2:
                 n, c = self.val(e.args[0], env), self.val(e.args[1], env)
                 if n[1] == "N" and c[1] == "Q": return (f"(npFull {n[0]} {c[0]})", "A")
+            if f == "np.maximum" and len(e.args) == 2:
+                a_, c_ = self.val(e.args[0], env), self.val(e.args[1], env)
+                if a_[1] == "A" and c_[1] == "Q": return (f"(npMaximumScalar {a_[0]} {c_[0]})", "A")
+            if f == "argtopn" and len(e.args) == 2:
+                a_, n_ = self.val(e.args[0], env), self.val(e.args[1], env)
+                if a_[1] == "A" and n_[1] == "INT": return (f"(LK.TopN.argtopn (({a_[0]}).map some) {n_[0]})", "POS")
             if f == "np.sum" and len(e.args) == 1:
                 inner = e.args[0]
                 if isinstance(inner, ast.Call) and ast.unparse(inner.func) == "np.isfinite":
@@ -98,6 +105,11 @@ class T:
         if isinstance(s, ast.Expr) and isinstance(s.value, ast.Call) and ast.unparse(s.value.func).startswith(("_logger.", "_log.")): return self.block(rest, env, ind)
         if isinstance(s, ast.Return):
             v = s.value
+            # ItemList(valid_items[picked], ordered=True): the positions picked, in order
+            if isinstance(v, ast.Call) and ast.unparse(v.func) == "ItemList" and len(v.args) == 1 and isinstance(v.args[0], ast.Subscript) \
+                    and {k.arg: ast.unparse(k.value) for k in v.keywords} == {"ordered": "True"} and ast.unparse(v.args[0].value) == "valid_items":
+                p_ = self.val(v.args[0].slice, env)
+                if p_[1] == "POS": return f"{pad}{p_[0]}"
             if isinstance(v, ast.Tuple) and len(v.elts) == 2:
                 a, b = self.val(v.elts[0], env), self.val(v.elts[1], env)
                 if a[1] == "A" and b[1] == "Q": return f"{pad}({a[0]}, some {b[0]})"
@@ -117,6 +129,7 @@ class T:
         if isinstance(s, ast.AugAssign) and isinstance(s.op, ast.Div) and isinstance(s.target, ast.Name) and env.get(s.target.id, ("", ""))[1] == "A":
             r = self.val(s.value, env)
             if r[1] == "Q": return f"{pad}let {s.target.id} := npDivScalar {env[s.target.id][0]} {r[0]}\n" + self.block(rest, {**env, s.target.id: (s.target.id, "A")}, ind)
+            if r[1] == "A": return f"{pad}let {s.target.id} := npDiv {env[s.target.id][0]} {r[0]}\n" + self.block(rest, {**env, s.target.id: (s.target.id, "A")}, ind)
         if isinstance(s, ast.AugAssign) and isinstance(s.op, (ast.Add, ast.Sub)):
             op = "Add" if isinstance(s.op, ast.Add) else "Sub"
             t = s.target
@@ -193,10 +206,20 @@ def translate_linear(src_root):
     t = T(); t.final_var = "weights"
     body = t.block(list(case.body), {"scores": ("scores", "A")}, 1)
     seg = ast.get_source_segment(src, mt)
+    # the statements after the `match`: exponential-race keys from the weights, the n best positions
+    k = next((i for i, st in enumerate(fn.body) if st is mt), None)
+    if k is None: raise Unsupported("the `match` is not a top-level statement of __call__")
+    t2 = T()
+    tail = t2.block(list(fn.body[k + 1:]), {"weights": ("weights", "A"), "n": ("n", "INT")}, 1)
+    seg = seg + "\n" + "\n".join(ast.get_source_segment(src, st) for st in fn.body[k + 1:])
+    t.notes += t2.notes
+    tail_def = ("/-- the statements after the `match`: `logu` stands for `np.log(rng.uniform(0, 1, N))`, `eps` for the smallest normal float32;\n"
+                "    the result is the list of picked positions (into the finite-score items), best first -/\n"
+                f"def pickT (logu : List Q) (weights : List Q) (eps : Q) (n : Int) : List Nat :=\n{tail}\n\n")
     return ("import LK.Model.NpOps\nimport LK.Model.Stochastic\n/-! GENERATED by translate/py2lean_imp.py on every run of `./check C19`; do not edit.\n"
-            f"* `linearWeightsT` ← {rel} StochasticTopNRanker.__call__ (the `linear` case), source sha256/64 {hashlib.sha256(seg.encode()).hexdigest()[:16]}\n"
+            f"* `linearWeightsT`, `pickT` ← {rel} StochasticTopNRanker.__call__ (the `linear` case; the statements after the `match`), source sha256/64 {hashlib.sha256(seg.encode()).hexdigest()[:16]}\n"
             + "".join(f"    - {n}\n" for n in dict.fromkeys(t.notes)) + "-/\nset_option linter.unusedVariables false\nnamespace LK.Gen.ImpC19\nopen LK.NpOps\n\n"
-            f"def linearWeightsT (scores : List Q) : List Q :=\n{body}\n\nend LK.Gen.ImpC19\n")
+            f"def linearWeightsT (scores : List Q) : List Q :=\n{body}\n\n" + tail_def + "end LK.Gen.ImpC19\n")
 
 if __name__ == "__main__":
     if len(sys.argv) > 1 and sys.argv[1] == "linear": print(translate_linear(sys.argv[2] if len(sys.argv) > 2 else "/repo/src/lenskit")); sys.exit(0)
